@@ -228,6 +228,10 @@ def layout(ctx, world):
             want0, wantk = ("slice", (0, 0, 0, 0), (1, 0, 0, 0)), ("index", (1, 0, 1, -1))
         else:
             want0, wantk = ("slice", (0, 1, 0, 0), None), ("index", (0, 0, 1, -1))
+        # an element INDEX counted from the end (form - (len(seq)+len(elts))) denotes the same element; a slice
+        # BOUND counted from the end does not (g[:-0] is empty), so slices must match exactly
+        if fk[0] == "index" and isinstance(fk[1], tuple) and isinstance(wantk[1], tuple) and tuple(a + b for a, b in zip(fk[1], (1, 1, 0, 0))) == wantk[1]:
+            fk = wantk
         ok = f0 == want0 and fk == wantk
         if not ok and ("?" in str(f0) or "?" in str(fk)):
             ctx.ob("A2.layout", name, None, e.loc, sample=f"index forms not linear in len(seq), len(elts), argnum: {f0} {fk}")
@@ -264,6 +268,11 @@ def _lin(t, names):
         if a.op == "sym" and a.get("role") == "g":
             return (1, 1, 0, 0)  # the cotangent has the structure of the result: len(seq) + len(elts)
         return "?"
+    if t.op == "un" and t.opname == "USub":
+        a = _lin(t.x, names)
+        if a in (None, "?"):
+            return "?"
+        return tuple(-x for x in a)
     if t.op == "bin" and t.opname in ("Add", "Sub"):
         a, b = _lin(t.l, names), _lin(t.r, names)
         if a in (None, "?") or b in (None, "?"):
